@@ -25,6 +25,9 @@ CLAIMED = {
  "C07": ("PC", "deterministic simulation of the real h1::Payload channel: seeded search over interleavings of single feeder/reader operations with counting wakers, checked operation by operation against a byte-queue reference model",
          "Seeded exploration: sequences of up to 14 single operations (feed_data with sizes straddling 32 KiB, feed_eof, set_error, sender drop, need_read, reader poll, unread_data, reader drop) in every interleaving the generator draws, against a reference model (byte queue + eof/err/sender-gone). Exact bytes, truthful ending (error before clean end, never a clean end for a cut-short body), reader wake-up on every event after a Pending poll, feeder wake-up once drained below the limit. Sampling (≈3M sequences per quick run), not proof.",
          "The reader stops polling once it has observed an end; when exactly Pause is reported is C05's subject.", "§4 C07"),
+ "C12": ("EX", "deterministic simulation of the real extractor futures over a scripted payload stream under a wake-driven executor: seeded search over limits x decoded lengths around the limit x chunkings with Pending x content codings x declared lengths x stream faults; every scenario also run under the trivial schedule (metamorphic)",
+         "Seeded exploration: Bytes, String, Json, Form and Payload::to_bytes_limited extractors with limits 0…256 KiB, decoded lengths limit-1/limit/limit+1/10x/multi-MB, 1-byte to 100 KB chunks straddling the in-place/spawn_blocking decode thresholds, Pending between chunks, identity/gzip/deflate/br/zstd, absent/honest/lying Content-Length, payload errors and truncated compressed streams. Success implies a value within the limit and equal to what was sent; a decoded body over the limit yields the extractor's overflow error (never success, never a parse error of a prefix); the outcome class is the same under the drawn chunking and as a single chunk; live-heap growth during extraction stays within 2x limit + 2 chunks + a fixed slack even for multi-MB bodies (identity/gzip/deflate). Sampling, not proof.",
+         "MultipartForm field limits are not driven here; the heap bound is not checked for brotli/zstd (their contexts are megabytes by themselves).", "§4 C12"),
  "C14": ("WS", "deterministic simulation of the real ws::Codec in both roles fed under simulator-chosen read segmentation; seeded search over frame sequences (legal and each illegal class), sizes at the encoding boundaries, max_size values and cuts; independent RFC 6455 model and SHA-1",
          "Seeded exploration: frame sequences written by an independent RFC 6455 serializer (all opcodes, lengths at 125/126/65535/65536, masks, legal fragmentation and every illegal class: wrong masking for the role, reserved opcode, fragmented or over-long control frame, continuation without start, data frame inside a fragmented message, announced length above max_size up to 2^64-1) fed to the real decoder under cuts inside headers, masks and payloads; the decoded sequence must equal the reference state machine's for every segmentation, an oversized frame must be refused as soon as its header is complete, no delivered frame exceeds max_size; messages encoded by one role must decode at the other to the same messages and be well-formed for the independent parser; upgrade requests parsed by the real HTTP/1 decoder under segmentation are accepted iff well-formed, with the accept key checked against an independent SHA-1/base64. Sampling, not proof.",
          "The byte feeder reproduces Framed's read loop (append, decode until None); RSV bits always 0; an over-long Close may be answered by an error or a bare Close; behaviour after a Close frame is not judged.", "§4 C14"),
